@@ -5,6 +5,8 @@ import (
 	"errors"
 	"fmt"
 	"math/rand"
+	"net"
+	"net/url"
 	"strings"
 	"sync"
 	"time"
@@ -145,6 +147,9 @@ var c18IDs = []string{
 var c18Addrs = []string{"1.2.3.4:30303", "1.2.3.4:9999", "5.6.7.8:30303", "[::1]:30303", "127.0.0.1:30303", "", "0.0.0.0:1",
 	"localhost:30303", "example.com:30303", "[2001:db8::1]:30303", "[2001:db8::1]:1"}
 
+// what a pool may write after the "@" of an active peer: the above, and hosts without a port
+var c18PoolAddrs = append(append([]string{}, c18Addrs...), "[2001:db8::1]", "1.2.3.4", "[::1]", "[::]", "example.com", "[2001:db8::1]:30303", "[2001:db8::1]")
+
 func genLocalPeer(rng *rand.Rand) ethnode.PeerInfo {
 	id := c18IDs[rng.Intn(len(c18IDs))]
 	p := ethnode.PeerInfo{ID: id}
@@ -175,24 +180,47 @@ func genPoolRef(rng *rand.Rand) string {
 		if rng.Intn(6) == 0 {
 			return "enode://" + id + "@bad host:1"
 		}
-		return "enode://" + id + "@" + c18Addrs[rng.Intn(len(c18Addrs))] + "?discport=0"
+		return "enode://" + id + "@" + c18PoolAddrs[rng.Intn(len(c18PoolAddrs))] + "?discport=0"
 	default:
-		return "enode://" + id + "@" + c18Addrs[rng.Intn(len(c18Addrs))]
+		return "enode://" + id + "@" + c18PoolAddrs[rng.Intn(len(c18PoolAddrs))]
 	}
 }
 
-// prefOf classifies a peer reference the way the agent does (same library calls).
+// prefOf classifies a peer reference: parsable or not, the node id, and the host when it names a
+// remote one. It is the harness's own reading of an enode reference (net/url only), not the
+// code under test's: ethnode.ParseNodeURI / RemoteHost are what the agent uses, and a change
+// there must show up as a disagreement with the model, not move the oracle along with it.
 func prefOf(t *interner, ref string) string {
-	u, err := ethnode.ParseNodeURI(ref)
-	if err != nil {
+	ok, id, h := readRef(ref)
+	if !ok {
 		return fmt.Sprintf("{| pf_ok := false; pf_id := %s; pf_host := 0%%N |}", cN(t.id("raw:"+ref)))
 	}
-	h := u.RemoteHost()
 	hn := 0
 	if h != "" {
 		hn = t.id("host:" + h)
 	}
-	return fmt.Sprintf("{| pf_ok := true; pf_id := %s; pf_host := %s |}", cN(t.id("raw:"+u.ID())), cN(hn))
+	return fmt.Sprintf("{| pf_ok := true; pf_id := %s; pf_host := %s |}", cN(t.id("raw:"+id)), cN(hn))
+}
+
+// readRef: is the reference a parsable enode reference, which node id does it name, and which
+// remote host (none for a bare id, localhost, loopback and unspecified addresses)
+func readRef(ref string) (ok bool, id, host string) {
+	s := ref
+	if !strings.HasPrefix(s, "enode://") && !strings.Contains(s, "://") {
+		s = "enode://" + s
+	}
+	u, err := url.Parse(s)
+	if err != nil || u.Scheme != "enode" {
+		return false, "", ""
+	}
+	if u.User == nil {
+		return true, u.Host, ""
+	}
+	h := u.Hostname() // brackets and port removed
+	if ip := net.ParseIP(h); h == "localhost" || (ip != nil && (ip.IsUnspecified() || ip.IsLoopback())) {
+		h = ""
+	}
+	return true, u.User.Username(), h
 }
 
 type c18Round struct {
@@ -337,30 +365,60 @@ func runC18(ctx *Ctx) {
 			if !rd.NodeErr && !rd.UpdErr {
 				for _, inv := range rd.Invalid {
 					id := inv
-					if u, e := ethnode.ParseNodeURI(inv); e == nil {
-						id = u.ID()
+					if ok, rid, _ := readRef(inv); ok {
+						id = rid
 					}
 					if !containsStr(nodeCalls, "untrust "+id) || !containsStr(nodeCalls, "disconnect "+id) {
 						mon = append(mon, fmt.Sprintf("c18-declared-invalid-kept: the pool declared %q invalid but the agent (strict=%v) did not un-trust and disconnect it", id, strict))
 					}
 				}
 			}
-			// model-free monitor (strict peering): a local peer that no active entry lists under
-			// the same host address must have been dropped
-			if strict && !rd.NodeErr && !rd.UpdErr {
+			// model-free monitors: with strict peering a local peer that no active entry lists
+			// under the same host address must have been dropped; and (strict or not) a local peer
+			// that IS listed under its host, or any local peer without strict peering, must not be
+			// dropped unless the pool declared it invalid
+			if !rd.NodeErr && !rd.UpdErr {
+				declared := map[string]bool{}
+				for _, inv := range rd.Invalid {
+					if ok, rid, _ := readRef(inv); ok {
+						declared[rid] = true
+					} else {
+						declared[inv] = true
+					}
+				}
+				// calls name node ids: an id is rightly dropped when it is declared invalid or (strict)
+				// when some local peer with that id is not listed under its host
+				mayDrop := map[string]bool{}
 				for _, lp := range rd.Locals {
-					lu, e := ethnode.ParseNodeURI(lp.EnodeURI())
-					if e != nil {
+					ok, lid, lhost := readRef(lp.EnodeURI())
+					if !ok {
 						continue
 					}
-					listed := false
+					listed, otherHost := false, false
 					for _, ref := range rd.Active {
-						if au, e := ethnode.ParseNodeURI(ref); e == nil && au.ID() == lu.ID() && au.RemoteHost() == lu.RemoteHost() {
-							listed = true
+						if aok, aid, ahost := readRef(ref); aok && aid == lid {
+							if ahost == lhost {
+								listed = true
+							} else {
+								otherHost = true // the pool lists the id under another host as well
+							}
 						}
 					}
-					if !listed && (!containsStr(nodeCalls, "untrust "+lu.ID()) || !containsStr(nodeCalls, "disconnect "+lu.ID())) {
+					both := containsStr(nodeCalls, "untrust "+lid) && containsStr(nodeCalls, "disconnect "+lid)
+					if strict && !listed && !both {
 						mon = append(mon, fmt.Sprintf("c18-strict-unlisted-kept: strict peering: local peer %s is not listed as active by the pool under its host address, yet the agent kept it (node calls: %v)", lp.EnodeURI(), nodeCalls))
+					}
+					if strict && (!listed || otherHost) {
+						mayDrop[lid] = true
+					}
+				}
+				for _, lp := range rd.Locals {
+					ok, lid, _ := readRef(lp.EnodeURI())
+					if !ok || declared[lid] || mayDrop[lid] {
+						continue
+					}
+					if containsStr(nodeCalls, "untrust "+lid) || containsStr(nodeCalls, "disconnect "+lid) {
+						mon = append(mon, fmt.Sprintf("c18-active-peer-dropped: local peer %s (strict=%v; active list %q) was not declared invalid and is listed as active under its host, yet the agent dropped it (node calls: %v)", lp.EnodeURI(), strict, rd.Active, nodeCalls))
 					}
 				}
 			}
